@@ -25,10 +25,10 @@ theorem any_loop {α : Type} (f : α → Bool) (b : Bool) (xs : List α) :
 theorem isFrameable_eq (c : Int) (h : Hdr) :
     banner_isFrameableHTMLResponse c h =
       ((c == 200) && !((Hdr.values h banner_contentDispositionHeader).any (fun cd => Go.contains (Go.toLower cd) [97,116,116,97,99,104,109,101,110,116]))
-        && (Hdr.values h banner_contentTypeHeader).any (fun ct => Go.contains ct [116,101,120,116,47,104,116,109,108] || Go.contains ct [97,112,112,108,105,99,97,116,105,111,110,47,120,104,116,109,108,43,120,109,108])) := by
+        && (Hdr.values h banner_contentTypeHeader).any (fun ct => Go.contains (Go.beforeSep ct [59]) [116,101,120,116,47,104,116,109,108] || Go.contains (Go.beforeSep ct [59]) [97,112,112,108,105,99,97,116,105,111,110,47,120,104,116,109,108,43,120,109,108])) := by
   simp only [banner_isFrameableHTMLResponse, Id.run]
   rw [any_loop (fun cd => Go.contains (Go.toLower cd) [97,116,116,97,99,104,109,101,110,116]) false,
-      any_loop (fun ct => Go.contains ct [116,101,120,116,47,104,116,109,108] || Go.contains ct [97,112,112,108,105,99,97,116,105,111,110,47,120,104,116,109,108,43,120,109,108]) true]
+      any_loop (fun ct => Go.contains (Go.beforeSep ct [59]) [116,101,120,116,47,104,116,109,108] || Go.contains (Go.beforeSep ct [59]) [97,112,112,108,105,99,97,116,105,111,110,47,120,104,116,109,108,43,120,109,108]) true]
   generalize (Hdr.values h banner_contentDispositionHeader).any _ = a1
   generalize (Hdr.values h banner_contentTypeHeader).any _ = a2
   by_cases hc : c = 200
@@ -60,7 +60,7 @@ theorem isFrameable_iff (c : Int) (h : Hdr) :
       (c = 200 ∧
        (∀ cd ∈ Hdr.values h banner_contentDispositionHeader, Go.contains (Go.toLower cd) [97,116,116,97,99,104,109,101,110,116] = false) ∧
        (∃ ct ∈ Hdr.values h banner_contentTypeHeader,
-          Go.contains ct [116,101,120,116,47,104,116,109,108] = true ∨ Go.contains ct [97,112,112,108,105,99,97,116,105,111,110,47,120,104,116,109,108,43,120,109,108] = true)) := by
+          Go.contains (Go.beforeSep ct [59]) [116,101,120,116,47,104,116,109,108] = true ∨ Go.contains (Go.beforeSep ct [59]) [97,112,112,108,105,99,97,116,105,111,110,47,120,104,116,109,108,43,120,109,108] = true)) := by
   rw [isFrameable_eq]
   simp [and_assoc]
 
